@@ -7,6 +7,7 @@ Open Scope Z_scope.
 
 Inductive prc_step :=
 | PsBlock (r : Z) (micros : list pr_micro) (adds dels nodes : list pr_hash)
+| PsSynced (r : Z) (adds dels nodes : list pr_hash)   (* state obtained by ApplyBlockStateChange: no collector calls *)
 | PsPrune (readable : list bool) (ver : option Z)   (* one flag per block of the finalized chain, oldest first; the version passed to PruneBelowVersion *)
 | PsRollback (r0 : Z).
 
@@ -25,6 +26,13 @@ Fixpoint prc_go (count : Z) (s : pr_state) (steps : list prc_step) : bool :=
       (* the calls are meaningful for the live set, which ends as the state's node set *)
       pr_micros_ok prev micros && prc_seteq (pr_live_run prev micros) nodes &&
       (* the hypotheses of the safety theorem *)
+      (ps_lfb s <? r) && forallb (fun rd => (fst rd <=? ps_lfb s) || (r <=? fst rd)) (ps_dead s) &&
+      forallb (fun h => Z.eqb (fst h) r) adds &&
+      forallb (fun h => pr_mem h prev || pr_mem h adds) nodes &&
+      pr_disjoint dels nodes && forallb (fun h => fst h <=? r) dels &&
+      prc_go count (pr_finalize s r adds dels nodes) tl
+  | PsSynced r adds dels nodes :: tl =>
+      let prev := pr_prev_nodes s in
       (ps_lfb s <? r) && forallb (fun rd => (fst rd <=? ps_lfb s) || (r <=? fst rd)) (ps_dead s) &&
       forallb (fun h => Z.eqb (fst h) r) adds &&
       forallb (fun h => pr_mem h prev || pr_mem h adds) nodes &&
